@@ -1367,4 +1367,33 @@ theorem fclaimE_succ {n : Nat} (hE : FClaimE n) (hB : FClaimB n) (hC : FClaimC n
   | and_ _ | or_ _ | let_ _ _ _ | newScope _ | arr _ | for_ _ _ _ _ _ | break_ _ | continue_ _ | fn _ _ _
   | defn _ _ _ _ | assign _ _ | bad _ => simp [Ff] at he
 
+/-! ## The induction -/
+
+theorem fclaims_zero : FClaimE 0 ∧ FClaimB 0 ∧ FClaimC 0 ∧ FClaimA 0 ∧ FClaimU 0 := by
+  refine ⟨?_, ?_, ?_, ?_, ?_⟩
+  · intro self e he isFn c gs r hc hfn m s rs env pre post hrel hseg
+    rw [Ref.eval]; trivial
+  · intro self es hne hes isFn c gs r hc hfn m s rs env pre post hrel hseg
+    rw [Ref.evalBegin]; trivial
+  · intro self arms d harms hd isFn c gs r gs0 rd hc hcd hfn m s rs env pre post hrel hseg
+    rw [Ref.evalCond]; trivial
+  · intro args hargs fo hfo i m s rs env hrel
+    rw [Ref.evalArgs]; trivial
+  · intro m s₁ rs₁ env vid vs D hrel hg hd hvs hlen
+    rw [Ref.applyFn]; trivial
+
+theorem fclaims : ∀ n, FClaimE n ∧ FClaimB n ∧ FClaimC n ∧ FClaimA n ∧ FClaimU n
+  | 0 => fclaims_zero
+  | n + 1 => by
+    obtain ⟨hE, hB, hC, hA, hU⟩ := fclaims n
+    exact ⟨fclaimE_succ hE hB hC hA hU, fclaimB_succ hE hB, fclaimC_succ hE hC, fclaimA_succ hE hA, fclaimU_succ hB⟩
+
+/-- **Segment lemma for F2a expressions.** -/
+theorem segment_Ff (self : String) (e : Expr) (he : Ff self e = true) (isFn : Nat → Bool) (c : Ctx)
+    (hfn : c.funcname = self ∨ c.funcname = "") (gs : GS) (r : (List Instr × Bool) × GS)
+    (hc : (compile isFn c e).run gs = .ok r) (m : Nat → Nat) (s : St) (rs : Ref.St) (env : Nat) (pre post : List Instr)
+    (hrel : RelF m s rs env) (hseg : Seg s pre r.1.1 post) (n : Nat) :
+    SimF r.1.1 m s rs env (Ref.eval n e env rs) :=
+  (fclaims n).1 self e he isFn c gs r hc hfn m s rs env pre post hrel hseg
+
 end ZygoVerif.Sim
